@@ -70,6 +70,8 @@ class _Capture(logging.Handler):
         self.setFormatter(logging.Formatter("%(message)s"))
 
     def emit(self, record):
+        if record.name != "gunicorn.access":
+            return              # (attached to the root logger in the propagation variant: other loggers' records pass by)
         self.nrecords += 1
         self.stream.write(self.format(record) + "\n")
 
@@ -85,18 +87,26 @@ def nfds():
 
 
 class Harness:
-    def __init__(self, kind, cfgset=None, server_name=("127.0.0.1", 8000), scratch=None):
+    def __init__(self, kind, cfgset=None, server_name=("127.0.0.1", 8000), scratch=None, capture_root=False):
         assert kind in KINDS
         self.kind = kind
         cfg = Config()
         base = {"errorlog": "/dev/null", "accesslog": "/dev/null", "loglevel": "critical"}
+        if capture_root:
+            # access logging configured through a logging dictionary in which 'gunicorn.access' has no handler of its own and
+            # propagates to the root logger (where the capture sits)
+            base = {"errorlog": "/dev/null", "loglevel": "critical", "logconfig_dict": {
+                "version": 1, "disable_existing_loggers": False, "root": {"level": "INFO", "handlers": []},
+                "loggers": {"gunicorn.error": {"level": "CRITICAL", "handlers": [], "propagate": False, "qualname": "gunicorn.error"},
+                            "gunicorn.access": {"level": "INFO", "handlers": [], "propagate": True, "qualname": "gunicorn.access"}}}}
         base.update(cfgset or {})
         for k, v in base.items():
             cfg.set(k, v)
         self.cfg = cfg
         self.log = cfg.logger_class(cfg)            # the configured logger (statsd_host switches to the Statsd logger)
         self.capture = _Capture()
-        logging.getLogger("gunicorn.access").addHandler(self.capture)
+        self.capture_root = capture_root
+        logging.getLogger("" if capture_root else "gunicorn.access").addHandler(self.capture)
         self.server_name = server_name
         self.listener = FakeListener(server_name)
         cls = {"sync": SyncWorker, "gthread": ThreadWorker, "async": _Async}[kind]
@@ -110,7 +120,9 @@ class Harness:
         self.scratch = scratch
 
     def close(self):
-        logging.getLogger("gunicorn.access").removeHandler(self.capture)
+        logging.getLogger("" if self.capture_root else "gunicorn.access").removeHandler(self.capture)
+        if self.capture_root:
+            logging.getLogger("gunicorn.access").propagate = False
         try:
             self.worker.tmp.close()
         except Exception:
@@ -153,6 +165,11 @@ class Harness:
     def connection(self, script, app, peer=("127.0.0.1", 50000), mode="halfclose", segments=None,
                    timeout=4.0, partial_read=0, read_delay=0.0, segment_delay=0.0, flood=None):
         """Run one client connection. script: bytes the client sends. Returns dict."""
+        lg = logging.getLogger("" if self.capture_root else "gunicorn.access")
+        if self.capture not in lg.handlers:
+            lg.addHandler(self.capture)         # (another harness's logging set-up in this process may have dropped it)
+        if self.capture_root:
+            logging.getLogger("gunicorn.access").propagate = True
         self.worker.wsgi = app
         self.worker.alive = True if getattr(self, "_keep_alive_flag", True) else self.worker.alive
         csock, ssock = socket.socketpair()
@@ -356,6 +373,8 @@ class _Iter:
 
     def _close(self):
         self.prog.rec["close_calls"] += 1
+        if self.prog.spec.get("close_raises"):
+            raise RuntimeError("scripted failure in the iterable's close()")
 
 
 class AppProgram:
